@@ -76,9 +76,21 @@ package harfbuzz
 //@ trusted std:math.Abs
 //@   params x
 //@   modifies nothing
+// (the horizontal fallback is 0.8 of the scaled em; 0.8 is a float32 constant, hence the 1e-7 bracket)
+//@ opaque hasHExtents(f *font.Face) bool
+//@ trusted std:font.Face.FontHExtents
+//@   ensures [outcome] result1 == hasHExtents(f)
+//@   modifies nothing
+//@ func Font.fontHExtentsWithFallback C12
+//@   mode int
+//@   inline
+//@   requires [font] f != nil && f.face != nil
+//@   ensures [horizontal-em-box-fallback] implies(!hasHExtents(f.face), implies(f.YScale >= 0, result.Ascender*10000000 >= float32(f.YScale)*7999999 && result.Ascender*10000000 <= float32(f.YScale)*8000001) && result.Descender == result.Ascender-float32(f.YScale) && result.LineGap == 0)
+//@   modifies nothing
 //@ func Font.ExtentsForDirection C12
 //@   mode int
 //@   requires [font] f != nil && f.face != nil
+//@   ensures [horizontal-em-box-fallback] implies(direction.isHorizontal() && !hasHExtents(f.face), implies(f.YScale >= 0, result.Ascender*10000000 >= float32(f.YScale)*7999999 && result.Ascender*10000000 <= float32(f.YScale)*8000001) && result.Descender == result.Ascender-float32(f.YScale) && result.LineGap == 0)
 //@   ensures [vertical-em-box-fallback] implies(!direction.isHorizontal() && !hasVExtents(f.face), result.Ascender == float32(f.XScale)*0.5 && result.Descender == result.Ascender-float32(f.XScale) && result.LineGap == 0)
 //@   modifies nothing
 //
